@@ -103,9 +103,9 @@ func NewConfig(name string) *Config {
 type Dumper struct {
 	C     *Config
 	Nodes int
-	Limit int               // abort when the dump exceeds this many nodes
-	Paths map[string][]int  // hash -> shallowest path (1-based child indices)
-	AllV  bool              // evaluate every node (needed to judge table entries at any depth)
+	Limit int              // abort when the dump exceeds this many nodes
+	Paths map[string][]int // hash -> shallowest path (1-based child indices)
+	AllV  bool             // evaluate every node (needed to judge table entries at any depth)
 	over  bool
 }
 
@@ -145,8 +145,8 @@ func (d *Dumper) Main(ctx context.Context, b *board.Board, depth int, path []int
 	if d.over {
 		return n
 	}
-	if n.D == 1 {
-		return n
+	if n.D == 1 && (len(path) > 0 || depth == 0) {
+		return n // a drawn root still lists its moves (one level: every line below it is drawn too)
 	}
 	if depth == 0 {
 		d.leaf(ctx, b, n)
